@@ -56,6 +56,23 @@ var LibConcurrency = 2
 // deviating party running the real code with wrong parameters). Set and reset by the driver of a run.
 var ThresholdHook func(nodeIdx, threshold int) int
 
+// OwnPID selects how a party is told which party it is: "" the element of the sorted list itself (what the
+// library's tests do), "separate" an equal PartyID that is another object (what the README shows),
+// "padded" a separate object whose key bytes carry a leading zero (a fixed-width encoding of the same key).
+// Set and reset by RunScenario.
+var OwnPID string
+
+func ownPID(p *tss.PartyID) *tss.PartyID {
+	if OwnPID == "" {
+		return p
+	}
+	key := append([]byte{}, p.Key...)
+	if OwnPID == "padded" {
+		key = append([]byte{0}, key...)
+	}
+	return &tss.PartyID{MessageWrapper_PartyID: &tss.MessageWrapper_PartyID{Id: p.Id, Moniker: p.Moniker, Key: key}, Index: p.Index}
+}
+
 func newParams(ec interface{}, n *Node, pids tss.SortedPartyIDs, idx, count, threshold int) *tss.Parameters {
 	if ThresholdHook != nil {
 		threshold = ThresholdHook(idx, threshold)
@@ -63,9 +80,9 @@ func newParams(ec interface{}, n *Node, pids tss.SortedPartyIDs, idx, count, thr
 	var p *tss.Parameters
 	switch ec.(string) {
 	case "ed":
-		p = tss.NewParameters(tss.Edwards(), tss.NewPeerContext(pids), pids[idx], count, threshold)
+		p = tss.NewParameters(tss.Edwards(), tss.NewPeerContext(pids), ownPID(pids[idx]), count, threshold)
 	default:
-		p = tss.NewParameters(tss.S256(), tss.NewPeerContext(pids), pids[idx], count, threshold)
+		p = tss.NewParameters(tss.S256(), tss.NewPeerContext(pids), ownPID(pids[idx]), count, threshold)
 	}
 	p.SetRand(n.Rand)
 	p.SetPartialKeyRand(n.PKRand)
@@ -138,7 +155,7 @@ func (w *World) AddEdResharing(oldPIDs tss.SortedPartyIDs, oldKeys []edkg.LocalP
 	newPIDs := MakePIDs("n", newIDKeys)
 	oldCtx, newCtx := tss.NewPeerContext(oldPIDs), tss.NewPeerContext(newPIDs)
 	mk := func(n *Node, pid *tss.PartyID, key edkg.LocalPartySaveData) {
-		params := tss.NewReSharingParameters(tss.Edwards(), oldCtx, newCtx, pid, w.oldPartyCount(len(oldPIDs)), oldThreshold, len(newPIDs), newThreshold)
+		params := tss.NewReSharingParameters(tss.Edwards(), oldCtx, newCtx, ownPID(pid), w.oldPartyCount(len(oldPIDs)), oldThreshold, len(newPIDs), newThreshold)
 		params.SetRand(n.Rand)
 		params.SetPartialKeyRand(n.PKRand)
 		params.SetConcurrency(LibConcurrency)
@@ -234,7 +251,7 @@ func (w *World) AddECResharing(oldPIDs tss.SortedPartyIDs, oldKeys []eckg.LocalP
 	newPIDs := MakePIDs("n", newIDKeys)
 	oldCtx, newCtx := tss.NewPeerContext(oldPIDs), tss.NewPeerContext(newPIDs)
 	mk := func(n *Node, pid *tss.PartyID, key eckg.LocalPartySaveData) {
-		params := tss.NewReSharingParameters(tss.S256(), oldCtx, newCtx, pid, w.oldPartyCount(len(oldPIDs)), oldThreshold, len(newPIDs), newThreshold)
+		params := tss.NewReSharingParameters(tss.S256(), oldCtx, newCtx, ownPID(pid), w.oldPartyCount(len(oldPIDs)), oldThreshold, len(newPIDs), newThreshold)
 		params.SetRand(n.Rand)
 		params.SetPartialKeyRand(n.PKRand)
 		params.SetConcurrency(LibConcurrency)
